@@ -61,7 +61,12 @@ func runDVB(line []byte, rec *recorder) {
 		var err error
 		// a sub-second part is not representable in the five bytes: the second it belongs to is what is encoded
 		ns := subsec[rg.intn(len(subsec))]
-		if p := safeCall(func() { b, n, err = astits.VerifWriteDVBTime(time.Date(y, time.Month(m), d, h, mi, s, ns, time.UTC)) }); p != nil {
+		// the same instant expressed in another location: the five bytes are those of its UTC date and time
+		t := time.Date(y, time.Month(m), d, h, mi, s, ns, time.UTC)
+		if off := []int{0, 0, 0, -5, 2, 14, -12, 9}[rg.intn(8)]; off != 0 {
+			t = t.In(time.FixedZone("zone", off*3600+1800*(off&1)))
+		}
+		if p := safeCall(func() { b, n, err = astits.VerifWriteDVBTime(t) }); p != nil {
 			rec.ev(M{"ev": "panic", "what": fmt.Sprintf("writeDVBTime: %v", p)})
 			return
 		}
